@@ -31,8 +31,9 @@ func (c c10) Generate(seed uint64, tier string, idx int) *core.Plan {
 	p.Cfg["spare"] = int64(r.Pick([]int{0, 7, 64}))
 	p.Cfg["segmode"] = int64(r.Pick([]int{0, 2, 3}))
 	for _, t := range []int64{1, 5} {
+		base := int64(r.Intn(1 << 20))
 		for i := 0; i < 2; i++ {
-			p.Steps = append(p.Steps, core.Step{Op: "iss", A: []int64{t, int64(r.Intn(1 << 20))}})
+			p.Steps = append(p.Steps, core.Step{Op: "iss", A: []int64{t, 2*base + int64(i)}}) // distinct keys by construction
 		}
 	}
 	nsess := r.Range(2, 4)
